@@ -58,6 +58,8 @@ type Having struct {
 type OrderKey struct {
 	Col  string `json:"col"`
 	Desc bool   `json:"desc,omitempty"`
+	// Explicit: an ascending key written with the keyword ASC (otherwise the direction is left out)
+	Explicit bool `json:"explicit,omitempty"`
 }
 
 type Case struct {
@@ -73,7 +75,7 @@ type Case struct {
 	Order           []OrderKey `json:"order,omitempty"`
 	Limit           int        `json:"limit,omitempty"`
 	AliasStyle      int        `json:"alias_style,omitempty"` // 0: a0, a1, ..; otherwise names that contain keywords (lowercase_0, order_1, is_2, band3, end_4, ...)
-	Rows            []gen.Row  `json:"rows"` // id, g, win (tumbling), x, y, z, w
+	Rows            []gen.Row  `json:"rows"`                  // id, g, win (tumbling), x, y, z, w
 }
 
 const (
@@ -678,7 +680,9 @@ func genCase(t *rapid.T) Case {
 					continue
 				}
 				seen[col] = true
-				c.Order = append(c.Order, OrderKey{Col: col, Desc: rapid.Bool().Draw(t, "desc")})
+				ok := OrderKey{Col: col, Desc: rapid.Bool().Draw(t, "desc")}
+				ok.Explicit = !ok.Desc && rapid.IntRange(0, 3).Draw(t, "explicitAsc") == 0
+				c.Order = append(c.Order, ok)
 			}
 		}
 	}
@@ -873,7 +877,7 @@ func sqlOf(c Case) string {
 			s := k.Col
 			if k.Desc {
 				s += " DESC"
-			} else if len(k.Col)%2 == 0 { // both spellings of ascending order
+			} else if k.Explicit { // both spellings of ascending order
 				s += " ASC"
 			}
 			ks = append(ks, s)
@@ -1513,9 +1517,12 @@ func runCase(c Case) (res pbt.Result) {
 func orderText(c Case) string {
 	var ks []string
 	for _, k := range c.Order {
-		if k.Desc {
+		switch {
+		case k.Desc:
 			ks = append(ks, k.Col+" DESC")
-		} else {
+		case k.Explicit:
+			ks = append(ks, k.Col+" ASC")
+		default:
 			ks = append(ks, k.Col)
 		}
 	}
